@@ -94,6 +94,46 @@ func corpus() []*c03lib.History {
 			hs = append(hs, &c03lib.History{Kind: "corpus-reuse", NKeys: 10, Txs: reuse(), Ops: ops})
 		}
 	}
+	// prune, then reuse: A (keys 5, 6) admitted [and persisted]; C takes A's
+	// slot with fork=true, which prunes A; then B (keys 6, 7) is admitted or
+	// finalized.  The reservation of key 6 for A must outlive A's body.
+	dpool := c03lib.DepositPool()
+	for kind := 0; kind < 3; kind++ {
+		for persisted := 0; persisted < 2; persisted++ {
+			for path := 0; path < 3; path++ {
+				ptx := []c03lib.TxSpec{
+					{Kind: "genesis", Tag: "g0", Outs: [][]int{{0}, {1}, {2}}},
+					{Kind: "script", Tag: "A", Ins: []c03lib.SlotRef{{Tx: 0, Index: 0}}, Outs: [][]int{{5}, {6}}},
+					{Kind: "script", Tag: "B", Ins: []c03lib.SlotRef{{Tx: 0, Index: 1}}, Outs: [][]int{{6}, {7}}},
+					{Kind: "script", Tag: "C", Ins: []c03lib.SlotRef{{Tx: 0, Index: 0}}, Outs: [][]int{{8}}},
+				}
+				switch kind {
+				case 1:
+					ptx[1] = c03lib.TxSpec{Kind: "deposit", Tag: "A", Dep: &dpool[4], Outs: [][]int{{5}, {6}}}
+					ptx[3] = c03lib.TxSpec{Kind: "deposit", Tag: "C", Dep: &dpool[4], Outs: [][]int{{8}}}
+				case 2:
+					ptx[1] = c03lib.TxSpec{Kind: "mint", Tag: "A", Batch: 7, Amount: 1, Outs: [][]int{{5}, {6}}}
+					ptx[3] = c03lib.TxSpec{Kind: "mint", Tag: "C", Batch: 7, Amount: 2, Outs: [][]int{{8}}}
+				}
+				ops := []c03lib.OpSpec{{Op: "writetx", Tx: 0}, {Op: "finalize", Txs: []int{0}},
+					{Op: "validate", Tx: 1}, {Op: "lockinputs", Tx: 1}}
+				if persisted == 1 {
+					ops = append(ops, c03lib.OpSpec{Op: "writetx", Tx: 1})
+				}
+				ops = append(ops, c03lib.OpSpec{Op: "lockinputs", Tx: 3, Fork: true}, c03lib.OpSpec{Op: "writetx", Tx: 3})
+				switch path {
+				case 0:
+					ops = append(ops, c03lib.OpSpec{Op: "validate", Tx: 2, Fork: false})
+				case 1:
+					ops = append(ops, c03lib.OpSpec{Op: "lockghost", Keys: []int{6}, As: "tx:2", Fork: true})
+				case 2:
+					ops = append(ops, c03lib.OpSpec{Op: "lockinputs", Tx: 2}, c03lib.OpSpec{Op: "writetx", Tx: 2}, c03lib.OpSpec{Op: "finalize", Txs: []int{2}})
+				}
+				ops = append(ops, c03lib.OpSpec{Op: "validate", Tx: 1}, c03lib.OpSpec{Op: "validate", Tx: 2, Fork: true})
+				hs = append(hs, &c03lib.History{Kind: "corpus-prune-reuse", NKeys: 10, Txs: ptx, Ops: ops})
+			}
+		}
+	}
 	hs = append(hs, &c03lib.History{Kind: "corpus-conc", NKeys: 10, Txs: txs(),
 		Ops: []c03lib.OpSpec{{Op: "writetx", Tx: 0}, {Op: "writetx", Tx: 1}, {Op: "writetx", Tx: 2}},
 		Conc: []c03lib.OpSpec{
@@ -107,7 +147,7 @@ func corpus() []*c03lib.History {
 
 func main() {
 	c := vh.Start("C04")
-	c.Rep.Rule = "filter cases: output key lists with and without repeats given to the real validateOutputs with a recording locker; histories as in C03 with the draw concentrated on keys (admission 12%, key locks for own/foreign/zero/exception callers 32%, finalization 18%, lock/write calls that make finalization possible 36%) over 10 output keys shared by ~14 transactions, every call on a real Badger store; reuse histories put a key holder in each of three states (reserved only / admitted and persisted / finalized) and let another transaction reuse the key through admission, raw key lock and finalization, fork and not; concurrent histories add a batch of 9-14 calls from 8 goroutines. Non-trivial: at least two calls changed the store (filter: at least one key); distinct: sequence of (call kind, result class) plus final sizes."
+	c.Rep.Rule = "filter cases: output key lists with and without repeats given to the real validateOutputs with a recording locker; histories as in C03 with the draw concentrated on keys (admission 12%, key locks for own/foreign/zero/exception callers 32%, finalization 18%, lock/write calls that make finalization possible 36%) over 10 output keys shared by ~14 transactions, every call on a real Badger store; reuse histories put a key holder in each of three states (reserved only / admitted and persisted / finalized) and let another transaction reuse the key through admission, raw key lock and finalization, fork and not, in half of them after the holder was pruned by a fork lock of a contender for its output / deposit / mint slot; concurrent histories add a batch of 9-14 calls from 8 goroutines. Non-trivial: at least two calls changed the store (filter: at least one key); distinct: sequence of (call kind, result class) plus final sizes."
 	if c.Replay != "" {
 		var h c03lib.History
 		c.ReplayCase(&h)
